@@ -81,17 +81,20 @@ def _slice_witness(dec: List[Tuple[int, int]], start: Optional[int]) -> bool:
 
 # ------------------------------------------------------------------ _yield_matching_files on an in-memory channel
 
-SUBS = ['2020-01-01T00-00-00', '2020-01-01T01-00-00', '2020-01-01T02-00-00']
-T0 = 1577836800          # 2020-01-01T00:00:00Z
+# the first subdirectory spans the moment the seconds field of the file names grows from 9 to 10 digits (2001-09-09T01:46:40Z): its two files
+# sort one way by name and the other way by time
+SUBS = ['2001-09-09T01-00-00', '2001-09-09T02-00-00', '2001-09-09T03-00-00']
+T0 = 999997200          # 2001-09-09T01:00:00Z
+OFFS0 = (2790, 2810)     # 999999990 (9 digits), 1000000010 (10 digits)
 
 
 def _tree(kind, present):
-    """candidate files: two in the first subdirectory (+10 s, +20 s), one in each of the others (+10 s); existence bits symbolic"""
+    """candidate files: two in the first subdirectory (+2790 s, +2810 s: 9- and 10-digit names), one in each of the others (+10 s); existence bits symbolic"""
     tree = {}
     k = 0
     for i, sd in enumerate(SUBS):
         files = []
-        for off in ((10, 20) if i == 0 else (10,)):
+        for off in (OFFS0 if i == 0 else (10,)):
             t = T0 + 3600 * i + off
             name = ('rf@%d.000.h5' % t) if kind == 'drf' else ('metadata@%d.h5' % t)
             if present[k]: files.append((t, name))
